@@ -131,12 +131,21 @@ pub(crate) fn verify_nonmembership<TC: Configuration>(
         ));
     }
 
-    let lcp_hash = TC::compute_parent_hash_from_children(
-        &proof.longest_prefix_children[0].value,
-        &proof.longest_prefix_children[0].label.value::<TC>(),
-        &proof.longest_prefix_children[1].value,
-        &proof.longest_prefix_children[1].label.value::<TC>(),
-    );
+    let lcp_hash = if proof
+        .longest_prefix_children
+        .iter()
+        .all(|child| child.label == TC::empty_label())
+    {
+        // The root of an empty tree has no children and keeps its initial value
+        TC::empty_root_value()
+    } else {
+        TC::compute_parent_hash_from_children(
+            &proof.longest_prefix_children[0].value,
+            &proof.longest_prefix_children[0].label.value::<TC>(),
+            &proof.longest_prefix_children[1].value,
+            &proof.longest_prefix_children[1].label.value::<TC>(),
+        )
+    };
     if lcp_children != proof.longest_prefix_membership_proof.label
         || lcp_hash != proof.longest_prefix_membership_proof.hash_val
     {
